@@ -113,8 +113,6 @@ fn confirmed_case(sender_kind: u8, with_remove: bool) {
     let r = create(&p, &interim, &auth);
     assert!(r.is_ok());
     let h = r.ok().unwrap();
-    kani::cover!(with_remove && sender_kind == 0);
-    kani::cover!(!with_remove && sender_kind == 3);
 
     let mut want = Vec::with_capacity(64);
     want.extend_from_slice(&prev);
@@ -153,7 +151,6 @@ fn c13_interim_transcript_hash_bounded_3() {
             let r = InterimTranscriptHash::create(&p, &cth, &ct);
             assert!(r.is_ok());
             let h = r.ok().unwrap();
-            kani::cover!(confirmed.len() == 2 && tag.len() == 3);
             let mut want = Vec::with_capacity(8);
             want.extend_from_slice(confirmed);
             rfc_opaque(&mut want, tag);
@@ -171,7 +168,6 @@ fn c13_transcript_hash_provider_error() {
     let ct = ConfirmationTag::mls_decode(&mut &[1u8, 7][..]).ok().unwrap();
     let cth = ConfirmedTranscriptHash::from(any_exact::<2>());
     let r = InterimTranscriptHash::create(&p, &cth, &ct);
-    kani::cover!(true);
     assert!(is_provider_error(&r));
     core::mem::forget(r);
 }
